@@ -166,14 +166,14 @@ enum Expect {
 
 fn make_jwk_did() -> (String, String) {
   // A public OKP/Ed25519, EC/P-256 or RSA JWK with coordinates and optional members drawn from the tape.
-  let x = identity_jose::jwu::encode_b64(ctx::bytes(32));
+  let x = crate::core::b64::encode(ctx::bytes(32));
   let mut jwk: serde_json::Value = match ctx::choose(3) {
     0 => serde_json::json!({"kty":"OKP","crv":"Ed25519","x": x}),
     1 => {
-      let y = identity_jose::jwu::encode_b64(ctx::bytes(32));
+      let y = crate::core::b64::encode(ctx::bytes(32));
       serde_json::json!({"kty":"EC","crv":"P-256","x": x, "y": y})
     }
-    _ => serde_json::json!({"kty":"RSA","n": identity_jose::jwu::encode_b64(ctx::bytes(64)), "e": "AQAB"}),
+    _ => serde_json::json!({"kty":"RSA","n": crate::core::b64::encode(ctx::bytes(64)), "e": "AQAB"}),
   };
   // optional members: the expanded document must carry exactly the key encoded in the DID, members included
   if ctx::chance(1, 3) {
@@ -199,16 +199,16 @@ fn make_jwk_did() -> (String, String) {
     jwk["x5u"] = "https://certs.example/chain.pem".into();
   }
   if ctx::chance(1, 4) {
-    jwk["x5t"] = identity_jose::jwu::encode_b64(ctx::bytes(20)).into();
+    jwk["x5t"] = crate::core::b64::encode(ctx::bytes(20)).into();
   }
   if ctx::chance(1, 4) {
-    jwk["x5t#S256"] = identity_jose::jwu::encode_b64(ctx::bytes(32)).into();
+    jwk["x5t#S256"] = crate::core::b64::encode(ctx::bytes(32)).into();
   }
   if ctx::chance(1, 4) {
     jwk["x5c"] = serde_json::json!(["MIIBszCCAVmgAwIBAgIUSimCert"]);
   }
   let jwk_json = jwk.to_string();
-  let did = format!("did:jwk:{}", identity_jose::jwu::encode_b64(jwk_json.as_bytes()));
+  let did = format!("did:jwk:{}", crate::core::b64::encode(jwk_json.as_bytes()));
   (did, jwk_json)
 }
 
@@ -216,7 +216,7 @@ fn make_jwk_did() -> (String, String) {
 /// / `alg` / `use`, its members in reverse order, and with insignificant whitespace. Returns (DID, JWK text).
 fn jwk_variants(jwk_json: &str) -> Vec<(String, String)> {
   let base: serde_json::Value = serde_json::from_str(jwk_json).unwrap();
-  let did_of = |text: &str| format!("did:jwk:{}", identity_jose::jwu::encode_b64(text.as_bytes()));
+  let did_of = |text: &str| format!("did:jwk:{}", crate::core::b64::encode(text.as_bytes()));
   let mut out = vec![(did_of(jwk_json), jwk_json.to_owned())];
   let mut with_kid = base.clone();
   with_kid["kid"] = "another-kid".into();
